@@ -48,6 +48,19 @@ pub enum Op {
     MaxUni(u64),
     /// local: drain datagrams
     RecvDgram,
+    /// a whole stream life: half a window of data, read, the rest with FIN, read to the end
+    /// (expands to four primitive operations; the stream's slot in the endpoint is recycled)
+    Whole(u8),
+}
+
+fn expand(l: &Lim, op: &Op) -> Vec<Op> {
+    match op {
+        Op::Whole(slot) => {
+            let h = l.stream_window / 2;
+            vec![Op::S(*slot, 0, h, false), Op::Read(*slot, usize::MAX), Op::S(*slot, h, 5, true), Op::Read(*slot, usize::MAX)]
+        }
+        o => vec![o.clone()],
+    }
 }
 
 #[derive(Clone, Debug)]
@@ -99,6 +112,8 @@ pub fn alphabet(l: &Lim) -> Vec<Op> {
             v.push(Op::Stop(slot));
         }
     }
+    v.push(Op::Whole(0));
+    v.push(Op::Whole(1));
     v.push(Op::S(0, l.recv_window.min(sw) / 2, l.recv_window.min(sw) / 2, false));
     v.push(Op::D(10));
     v.push(Op::D(l.dgram_buf));
@@ -183,6 +198,8 @@ pub struct Out {
 }
 
 pub fn run_seq(base: Instant, l: &Lim, vs: bool, seq: &[Op], dump: bool) -> Result<Out, String> {
+    let seq: Vec<Op> = seq.iter().flat_map(|o| expand(l, o)).collect();
+    let seq = &seq[..];
     guarded(|| {
         let cfg = cfg_of(l, vs);
         let idle = Plan { no_read: true, ..Default::default() };
@@ -488,6 +505,7 @@ pub fn run_seq(base: Instant, l: &Lim, vs: bool, seq: &[Op], dump: bool) -> Resu
                     p.w.settle_conn(victim, vch);
                     m.conc_max[1] = m.conc_max[1].max(*n);
                 }
+                Op::Whole(_) => unreachable!("expanded before execution"),
                 Op::RecvDgram => {
                     let mut sizes = vec![];
                     {
@@ -556,7 +574,7 @@ pub fn run_seq(base: Instant, l: &Lim, vs: bool, seq: &[Op], dump: bool) -> Resu
                     // credit decided but not yet advertised: rejecting is acceptable too
                 } else if expect_close.is_empty() {
                     viol.push(("in-limit-frame-rejected".into(), format!("step {step} {op:?}: frame is inside every advertised limit (stream adv {:?}, MAX_DATA {}, MAX_STREAMS {:?}) but the connection closed with {new_lost:x?}", m.streams.iter().map(|(k, v)| (*k, v.adv, v.high)).collect::<Vec<_>>(), m.adv_max_data, m.adv_max_streams)));
-                } else if !new_lost.iter().all(|c| expect_close.contains(c)) {
+                } else if !new_lost.iter().all(|c| expect_close.contains(c) || (lenient_slim && *c == SLIM) || (lenient_flow && *c == FLOW) || (lenient_fsize && *c == FSIZE)) {
                     viol.push(("wrong-limit-error-code".into(), format!("step {step} {op:?}: closed with {new_lost:x?}, the violated limits call for {expect_close:x?}")));
                 }
             } else if !expect_close.is_empty() {
